@@ -1,10 +1,13 @@
 #!/bin/sh
-# Apply a seeded change to /repo, run the given checks, undo it.  usage: seed_run.sh <patch> <Cxx> [<Cxx>...]
+# Run the given checks against a seeded change applied to a scratch working tree (never to /repo).
+# usage: seed_run.sh <patch> <Cxx> [<Cxx>...]
 P=$1; shift
-cd /repo && git status --short | grep -q . && { echo "/repo is not clean"; exit 2; }
-git -C /repo apply $P || exit 2
+W=/tmp/seedrun.$$
+mkdir -p $W
+git -C /repo worktree add -q --detach $W/repo HEAD || exit 2
+git -C $W/repo apply $P || { git -C /repo worktree remove --force $W/repo; exit 2; }
 for c in "$@"; do
   echo "--- ./check $c (with $P applied)"
-  (cd /verif && ./check $c ${TIER:+--tier $TIER} 2>&1 | grep -E "^VIOLATION|^OK|^KNOWN|FAILED|\[suite" | head -12)
+  (cd /verif && VERIF_REPO=$W/repo VERIF_CACHE=$W/cache ./check $c ${TIER:+--tier $TIER} 2>&1 | grep -E "^VIOLATION|^OK|^KNOWN|FAILED|\[suite" | head -12)
 done
-git -C /repo checkout -- .
+git -C /repo worktree remove --force $W/repo; rm -rf $W; git -C /repo worktree prune
